@@ -47,7 +47,7 @@ CHECKS = {
              "unmodified rendering's statements must equal the modified rendering; oracle diffs modified vs unmodified "
              "renderings (rates and fex polynomials).",
         design="4/C13", technique="Lean 4 proof (list induction) + differential check of modified vs unmodified renderings",
-        note="Path through the configuration file is exercised by C20's check."),
+        note="The path through the configuration file (init -> toml -> render, export) is exercised with C20's machinery on modifier-carrying descriptions."),
     "C19": dict(
         text="Theorems solve_success_exact (for every script of integrator outcomes - successes, flags -1..-4 with arbitrary "
              "partial progress, reset flag -6, failing re-initialisation - at every call position of the five levels, in any "
@@ -176,6 +176,17 @@ CHECKS = {
         design="4/C12", technique="Lean 4 proof (structural induction over parse trees) + differential check against a reference Fortran reader",
         note="Partial: Lark's Earley parser (text -> tree) is not modelled; its misreadings are the known findings F7-chain, "
              "F7-sign and F8. Values compared in binary64 with 1e-9 relative tolerance."),
+    "C20": dict(
+        text="Theorems parseList_showList, parseKV_showKV, config_roundtrip (for every description whose items are free of the "
+             "option syntax's separators: reading the written option strings back gives exactly the description, field by field, "
+             "empty lists included), separator_splits. Tie: descriptions passed through `naunet init --render`, through "
+             "Network.export + `naunet render`, and the bundled examples x methods (via `example --dry`), each in a fresh "
+             "process: every field of the written TOML must equal the request and the rendered tree must be byte-identical to the "
+             "API rendering of the same description; the model parses the same option strings.",
+        design="4/C20", technique="Lean 4 proof (split/join/strip lemmas) + CLI-vs-API byte comparison of rendered trees",
+        note="tomlkit dump/load is trusted as the identity on the TOML tree; numeric tables (binding energies, yields) and modifier "
+             "syntax are compared by the oracle, not by the theorems; a project exported from a network with a replacement table "
+             "cannot be re-rendered (refused with an error - the API has no replacement argument)."),
 }
 
 NOT_YET = {}
